@@ -94,7 +94,7 @@ ProvOK(out, lines) ==
     /\ \A j \in DOMAIN out : out[j].src = 0 \/ out[j].nm = 1
     /\ IsSubSeq(OutProv(out), InProv(lines))
 BlankOK(out, stored, lines, sp, path) ==
-    (path # "file" /\ AllBlankAfter(lines, cf, sp)) => (out = <<>> /\ ~stored)
+    (path # "file" /\ ~Untouched(sp) /\ AllBlankAfter(lines, cf, sp)) => (out = <<>> /\ ~stored)
 EndOK ==
     /\ si >= 1
     /\ ProvOK(Ev.out, content[si].lines)
@@ -220,11 +220,13 @@ DiagLine ==
     ELSE IF InjBad(NewDb(toks, obs)) # {} THEN DiagInj(toks, obs)
     ELSE "line.unknown"
 
+(* the spec's declaration exempts it from every obfuscator (it is a cleaned spec only by redaction / filtering) *)
+BlankFeat(sp) == IF AllObf \subseteq sp.noobf THEN ":exempt-from-every-obfuscator" ELSE ""
 DiagEnd ==
     IF si < 1 THEN "endspec.shape"
     ELSE IF \E j \in DOMAIN Ev.out : Ev.out[j].src # 0 /\ Ev.out[j].nm # 1 THEN "ProvenanceMonotone:not-one-source"
     ELSE IF ~ProvOK(Ev.out, content[si].lines) THEN "ProvenanceMonotone:order"
-    ELSE "BlankCollapses:" \o Ev.path
+    ELSE "BlankCollapses:" \o Ev.path \o BlankFeat(CurSp)
 
 DiagReport ==
     IF Missing(Ev.maps) # {} THEN
@@ -246,7 +248,7 @@ DiagRun ==
             x == r.specs[s] IN
         IF \E j \in DOMAIN x.out : x.out[j].src # 0 /\ x.out[j].nm # 1 THEN "ProvenanceMonotone:not-one-source"
         ELSE IF ~ProvOK(x.out, content[x.si].lines) THEN "ProvenanceMonotone:order"
-        ELSE "BlankCollapses:" \o x.path
+        ELSE "BlankCollapses:" \o x.path \o BlankFeat(content[x.si].sp)
     ELSE IF ~SameOut(r) THEN "Deterministic:" \o cf.fam \o
              (IF r.hs = runs[1].hs THEN ":same-process-fresh-cleaner" ELSE ":across-hash-seeds")
     ELSE IF ~NoSideEffect(r) THEN "Deterministic:" \o cf.fam \o ":caller-allowlist-consumed"
